@@ -7,7 +7,7 @@
    comb / fuel / the script [evs] quantify over every reader behaviour (arbitrary
    chunking, 0-byte reads, an error at any offset, data together with EOF/error).
    [matches_desc H dg sz bs] = length bs = sz /\ dg = alg:H alg bs /\ dg is a valid digest. *)
-From Oras Require Import Base.Prelude Generated.GC05 Model.Verify Proofs.Verify Proofs.VerifyComplete Proofs.VerifyProxy Proofs.VerifyFuel Proofs.VerifyConc Proofs.VerifyTop Proofs.VerifyWriter Proofs.VerifyNames Proofs.VerifyFileConc.
+From Oras Require Import Base.Prelude Generated.GC05 Model.Verify Proofs.Verify Proofs.VerifyComplete Proofs.VerifyProxy Proofs.VerifyFuel Proofs.VerifyConc Proofs.VerifyTop Proofs.VerifyWriter Proofs.VerifyNames Proofs.VerifyFileConc Proofs.VerifyOpts.
 
 (* ReadAll hands back data only when length and digest match and the reader held
    nothing else *)
@@ -302,6 +302,31 @@ Theorem C05_file_traversal_refused :
     file_push_name H comb true fuel s name d evs = (Some ETraversal, s).
 Proof. exact file_push_traversal. Qed.
 Print Assumptions C05_file_traversal_refused.
+
+(* Store.DisableOverwrite: resolveWritePath refuses a path that exists, so nothing that
+   is visible can be clobbered: the FULL statement for EVERY name, aliases included, over
+   all histories of such a store (any mix of the other options) *)
+Theorem C05_push_file_disable_overwrite :
+  forall (H : str -> str -> str) comb o fuel s name d evs e s',
+    file_reach_do H s -> o_disable_overwrite o = true -> name <> [] ->
+    file_push_opt H comb true o fuel s name d evs = (e, s') ->
+    (e = None ->
+       exists bs, file_fetch s' name d = Some bs /\ file_exists s' name d = true /\
+                  matches_desc H (d_dg d) (d_sz d) bs /\ exists rest, stream evs = bs ++ rest) /\
+    (e <> None -> forall name' d', file_exists s' name' d' = file_exists s name' d' /\
+                                   file_fetch s' name' d' = file_fetch s name' d') /\
+    (forall name' d' bs, file_fetch s' name' d' = Some bs ->
+                         d_dg d' = digest_of H (alg_of (d_dg d')) bs /\ valid_digest (d_dg d') = true).
+Proof. exact file_disable_overwrite. Qed.
+Print Assumptions C05_push_file_disable_overwrite.
+
+(* the option-free push is the default instance; Store.IgnoreNoName discards unnamed content *)
+Theorem C05_file_options :
+  forall (H : str -> str -> str) comb fuel s name d evs,
+    file_push_opt H comb true default_opts fuel s name d evs = file_push_name H comb true fuel s name d evs /\
+    (forall o, o_ignore_noname o = true -> file_push_opt H comb true o fuel s [] d evs = (None, s)).
+Proof. exact file_options. Qed.
+Print Assumptions C05_file_options.
 
 (* bad input never gets in, whatever the store *)
 Theorem C05_push_bad_rejected :
